@@ -85,7 +85,7 @@ class RemoteStore(Store):
         self.on_removed(key)
 
     def contains(self, key):
-        res = self.fetch_json(self.concat_api("store/remove", key))
+        res = self.fetch_json(self.concat_api("store/contains", key))
         if res["status"] != "OK":
             raise StoreException(res["message"], key=key, store=self)
         return res["contains"]
